@@ -28,12 +28,17 @@ def gen_cases(tier, seed):
     rng = gen.rng_for(seed, ID, tier)
     cs = itertools.count(1)
     nshapes = 10 if tier == "quick" else 80
-    for fam in ("exact", "noisy", "int32", "uint8", "float32", "tucker-sparse", "empty-tail", "shared-factors", "tucker-orth", "scattered"):
+    for fam in ("exact", "noisy", "int32", "uint8", "float32", "tucker-sparse", "empty-tail", "shared-factors", "tucker-orth", "scattered", "sym-indefinite"):
         for _ in range(nshapes if fam in ("exact", "noisy") else max(2, nshapes // 3)):
             N = int(rng.integers(2, 5))
             shape = [int(s) for s in rng.integers(2, 8 if N < 4 else 5, size=N)]
             if fam in ("tucker-sparse", "tucker-orth"):
                 shape = [int(s) for s in rng.integers(4, 8 if N < 4 else 5, size=N)]
+            if fam == "sym-indefinite":
+                # a square, exactly symmetric unfolding with eigenvalues of both signs (the Gram spectrum is their squares)
+                s_ = int(rng.integers(3, 7))
+                shape = [s_, s_] if rng.random() < 0.6 else [s_, s_, 1]
+                N = len(shape)
             if fam == "scattered":
                 N = 3
                 shape = [int(rng.integers(4, 7)), int(rng.integers(3, 5)), int(rng.integers(3, 5))]
@@ -89,6 +94,16 @@ def _data(case):
         A = refops.ttm(cd, U, list(range(len(shape))))
         H["ttensor"] = ttb.ttensor(ttb.tensor(cd.copy()), [u.copy() for u in U])
         H["tensor"] = ttb.tensor(A.copy())
+        return A, H
+    if case["fam"] == "sym-indefinite":
+        s_ = shape[0]
+        Q = np.linalg.qr(rng.standard_normal((s_, s_)))[0]
+        lam = np.array([-5.0, 3.0, 1.8, -1.0, 0.5, -0.2][:s_])
+        Msym = (Q * lam) @ Q.T
+        Msym = (Msym + Msym.T) / 2.0                       # exactly symmetric
+        A = Msym.reshape(shape)
+        H["tensor"] = ttb.tensor(A.copy())
+        H["sptensor"] = gen.mk_sptensor(ttb, A, gen.stored_order(rng, int(np.count_nonzero(A)), "shuffled"))
         return A, H
     if case["fam"] == "scattered":
         # very sparse data: no two nonzeros share a mode-0 fibre position (the mode-0 Gram matrix is diagonal), several nonzeros per slice,
